@@ -332,7 +332,10 @@ def run(tape, ctx):
     lost, extra = _diff(agg, model)
     if lost or extra:
         tot_l = sum(lost.values())
-        kind = "lost-event" if (lost and not extra) else "miscredited-event"
+        if lost and not extra:
+            kind = "lost-event" if all(v > 0 for v in lost.values()) else "duplicated-event"
+        else:
+            kind = "miscredited-event"
         raise Violation(f"C04|L1|{kind}|final-flush",
                         f"{len(lost)} cells short (mass {tot_l}), {len(extra)} foreign cells; "
                         f"e.g. lost={dict(list(lost.items())[:3])} extra={dict(list(extra.items())[:3])}", desc)
